@@ -141,7 +141,7 @@ pub fn spec() -> PropSpec<Case> {
     },
     check,
     cases: |tier| tier.pick(60_000, 1_200_000),
-    rule: "generated worlds with 1-5 roots; the roots are partitioned into up to three successive build() calls, a known root is built again, then 0-3 rounds of source edits (replace a module's source, delete a file) each followed by reload() of every specifier whose served source changed (named by its final specifier or, every other case, by the head of the longest redirect chain the graph records for it); non-trivial = (the partition has >= 2 non-empty steps and the graph has >= 3 modules) or (an edit changes the dependency set of a module present in the graph); distinct = distinct case JSON",
+    rule: "generated worlds with 1-5 roots; the roots are partitioned into up to three successive build() calls, a known root is built again, then 0-3 rounds of source edits (replace a module's source, delete a file) each followed by reload() of every specifier whose served source changed; every other history shares one CapturingModuleAnalyzer across its builds and reloads (named by its final specifier or, every other case, by the head of the longest redirect chain the graph records for it); non-trivial = (the partition has >= 2 non-empty steps and the graph has >= 3 modules) or (an edit changes the dependency set of a module present in the graph); distinct = distinct case JSON",
     assumptions: &[
       "same-attribute proviso by construction (re-established after every edit; modules whose source changes as a consequence are reloaded too)",
       "no `type` attributes and no source-map URLs in C19 worlds (the class of a target would otherwise change with an edit of its importer), except in the JSON sub-domain (a quarter of the cases): only JS / TS modules and .json files, JSON files are never roots and every import of one carries `type: \"json\"` in every version",
@@ -318,7 +318,18 @@ pub fn check(case: &Case, _tier: Tier) -> Outcome {
   }
   steps.retain(|s| !s.is_empty());
   let order: Vec<String> = steps.iter().flatten().cloned().collect();
+  // the history under test shares one capturing analyser (every other case);
+  // the from-scratch builds it is compared with use a fresh default one
+  let shared = (case.repeat % 4 < 2).then(|| std::rc::Rc::new(deno_graph::ast::CapturingModuleAnalyzer::default()));
+  if shared.is_some() {
+    o.label("shared-capturing-analyzer");
+  }
+  let set_shared = |on: bool| {
+    crate::harness::SHARED_ANALYZER.with(|a| *a.borrow_mut() = if on { shared.clone() } else { None });
+  };
+  set_shared(true);
   let mut inc = build_steps(&b.world, &steps, b);
+  set_shared(false);
   let once = build_steps(&b.world, &[order.clone()], b);
   let mut diverged = false;
   for (sig, _, msg) in
@@ -336,6 +347,7 @@ pub fn check(case: &Case, _tier: Tier) -> Outcome {
   let before = obs::graph_json(&inc);
   let again = vec![order[idx(case.repeat, order.len())].clone()];
   {
+    set_shared(true);
     let loader = WorldLoader::from_world(&b.world);
     build_into(
       &mut inc,
@@ -353,6 +365,7 @@ pub fn check(case: &Case, _tier: Tier) -> Outcome {
       false,
     )
     .expect("ungated build");
+    set_shared(false);
     if obs::graph_json(&inc) != before {
       o.violate("C19/rebuild-of-known-root-changes-graph", format!("root {again:?}"));
     }
@@ -423,6 +436,7 @@ pub fn check(case: &Case, _tier: Tier) -> Outcome {
       let before_mods = obs::serialized_modules(&graph);
       let before_deps: BTreeSet<(String, String, String, bool)> = obs::code_edges(&graph);
       let loader = WorldLoader::from_world(&new_world);
+      set_shared(true);
       build_into(
         &mut graph,
         parse_roots(&reload_names),
@@ -439,6 +453,7 @@ pub fn check(case: &Case, _tier: Tier) -> Outcome {
         true,
       )
       .expect("ungated reload");
+      set_shared(false);
       let fresh = build_steps(&new_world, &[order.clone()], b);
       let scope: BTreeSet<String> =
         obs::entries(&fresh, false).keys().cloned().collect();
